@@ -88,6 +88,10 @@ def sprinkle(rng, m, ops):
         out.insert(rng.randint(0, len(out)), ('perturb', rng.randint(0, 10 ** 6)))
     for _ in range(rng.choice([0, 0, 1, 1, 2, 3])):
         out.insert(rng.randint(0, len(out)), rng.choice(sw))
+    # observer calls with default and non-default options somewhere before the checkpoint
+    ob = ['export', 'summary', 'cost', 'str'] + (['export_nobn', 'export_nobn'] if m == 'PIT' else [])
+    for _ in range(rng.choice([0, 1, 1, 2])):
+        out.insert(rng.randint(0, len(out)), ('obs', rng.choice(ob)))
     r = rng.random()
     if r < 0.3:
         out.append(rng.choice(sw))                      # right before the checkpoint
@@ -188,6 +192,8 @@ def op_literal(op):
         return 'OEval'
     if k == 'disc':
         return 'OSetDisc %s' % coq(op[1])
+    if k == 'obs':
+        return 'OObserve %s' % coq(Nat(op[1]))
     if k == 'sw':
         return 'OTrainSwitch %s %s' % (coq(Nat(op[1])), coq(op[2]))
     if k == 'upd':
@@ -222,6 +228,8 @@ def oracle(case, res):
     out = []
     if 'crash' in res:
         return [('history-crashed:%s' % m, 'running the history raised: ' + res['crash'].strip().split('\n')[-1])]
+    for kc in res.get('key_changes', []):
+        out.append(('observer-changes-state_dict-keys:%s:%s' % (m, kc['observer']), 'the state_dict keys of the live %s model differ before / after %s: lost %s gained %s' % (m, kc['observer'], kc['lost'], kc['gained'])))
     ld = res['load']
     if res['ckpt_keys'] != res['fresh_keys']:
         miss = sorted(set(res['fresh_keys']) - set(res['ckpt_keys']))
@@ -265,7 +273,7 @@ def run(ctx):
     ctx.extra['impl_wall_s'] = round(time.time() - t0, 1)
     fails = []
     for case, res in zip(cases, results):
-        nontriv = any(o[0] in ('step', 'upd', 'disc', 'perturb', 'sw') for o in case['ops'])
+        nontriv = any(o[0] in ('step', 'upd', 'disc', 'perturb', 'sw', 'obs') for o in case['ops'])
         ctx.case((repr(case['cfg']), repr(case['ops'])), nontrivial=nontriv, kind=case['kind'].rsplit(':steps', 1)[0] if ':steps' in case['kind'] else case['kind'],
                  sample={'cfg': case['cfg'], 'ops': case['ops'], 'load': res.get('load'), 'equal(out,cost,summary,export)': res.get('eq'), 'changed_transient_options': res.get('changed')})
         for key, what in oracle(case, res):
